@@ -30,15 +30,17 @@ RULE = ("generated UFO-3 fonts (1-3 layers, glyphs with outlines/components/anch
         "groups, features, lib, images, data; package directory or .ufoz zip) x histories built from scripted epochs "
         "[in-memory edits | external edit batch | test | lazy reads | reload / accept deletions | second test | "
         "usability probes: read unread glyph/image/data, save or save-as, test], scripted delete-in-memory / save-as / "
-        "external re-creation patterns for glyphs (read or never read), images and data, and random op soup; external edits: byte change, "
+        "external re-creation patterns for glyphs (read or never read), images and data, glyph renames (to a fresh name, onto a file, "
+        "chains), deletion and re-creation under the same name, repeated in-memory edits of one object, in-place saves while external "
+        "edits are unnoticed, and random op soup; external edits: byte change, "
         "touch-only, byte change with unchanged mtime, file creation, file deletion, glyph addition/removal with "
         "contents.plist updated, layer addition/removal/reorder/default change with layercontents.plist updated; "
         "non-trivial = at least one external edit followed by a test and at least one in-memory edit, lazy read or save; "
         "distinct = distinct (spec, structure, ops)")
 ASSUMPTIONS = [
     "UFO format 3 only; saves are in place (font.save()) or save-as to a path where nothing exists, same structure "
-    "(the font is bound to the new UFO afterwards, external edits then go there); one font object per UFO; single thread; no renames of glyphs or "
-    "layers in memory; glyphs carry no components (a component's observers load its base glyph, which entangles lazy "
+    "(the font is bound to the new UFO afterwards, external edits then go there); one font object per UFO; single thread; glyphs are "
+    "renamed in memory (glyph.name = ...), layers are not; glyphs carry no components (a component's observers load its base glyph, which entangles lazy "
     "loading with names whose files were deleted externally and not yet taken over)",
     "external edits write the bytes fontTools.ufoLib writes for a value (bytes <-> value one to one; checked at run time "
     "after every save and external write: stats key noncanonical must stay 0); lib.plist is never deleted externally and "
@@ -49,7 +51,8 @@ ASSUMPTIONS = [
     "save, with two-second wall-clock granularity, so the harness re-dates every entry to a time of its own right after "
     "the save (the reader the font opened at the end of the save keeps the archive it opened)",
     "zip archives are replaced atomically (os.replace), so a reader opened earlier keeps a consistent snapshot",
-    "an external layer addition / deletion / default-layer change is followed by a test at once; unless reload and "
+    "an external layer addition / deletion / default-layer change is followed (possibly after a reordering of layercontents.plist) "
+    "by a test at once; unless reload and "
     "accept-deletion follow, the histories neither save nor touch the glyphs of those layers any more; a save over a UFO "
     "whose layer structure was changed externally and not taken over is outside the property's domain (not judged; the "
     "model answers it `outside-the-modelled-domain`, implementation and model then stop being compared) - except that "
@@ -197,6 +200,8 @@ def model_lines(case):
             lines.append([A("pset"), A(op[1]), ids.part(op[1], op[2])])
         elif k in ("gget", "gnew", "gdel"):
             lines.append([A(k), op[1], op[2]])
+        elif k == "grename":
+            lines.append([A("grename"), op[1], op[2], op[3]])
         elif k == "gset":
             lines.append([A("gset"), op[1], op[2], ids.glyph(op[3])])
         elif k in ("lnew", "ldel", "ldefault"):
@@ -436,6 +441,14 @@ class Impl(object):
             if op[2] in layer._glyphs:
                 self.keep.append(layer._glyphs[op[2]])
             del layer[op[2]]
+            return ok
+        if k == "grename":
+            layer = font.layers[op[1]]
+            g = layer[op[2]]
+            self.keep.append(g)
+            if op[3] in layer._glyphs:
+                self.keep.append(layer._glyphs[op[3]])      # the glyph object that is replaced
+            g.name = op[3]
             return ok
         if k == "lnew":
             self.keep.append(font.newLayer(op[1]))
@@ -913,6 +926,15 @@ class Oracle(object):
                     e["pending"].pop(op[2], None)
                     e["glyphs"].pop(op[2], None)
                 continue
+            renamed_to = None
+            if k == "grename" and op[1] == ln and ok and op[2] != op[3]:
+                # the glyph object now lives under a name whose file (if any) it has neither read nor written; the old
+                # name is handled below like any glyph deleted in memory (the rename read the file first if need be)
+                renamed_to = op[3]
+                self.fresh_glyphs.add((ln, renamed_to))
+                if e is not None and not fresh_layer:
+                    e["pending"].pop(renamed_to, None)
+                    e["glyphs"].pop(renamed_to, None)
             if e is None or fresh_layer:
                 continue
             # deleted in memory: the file (if the font knows one) is scheduled for deletion as it was last read
@@ -931,6 +953,8 @@ class Oracle(object):
                         e["names"].discard(gn)      # the file is gone already: the font takes the deletion over
             # read lazily / reloaded
             for gn in (after["glyphs"][ln] - b_loaded) | (reloaded.get(ln, set()) & after["glyphs"][ln]):
+                if gn == renamed_to:
+                    continue
                 b = glyph_bytes(view, ln, gn)
                 if b is not None:
                     e["glyphs"][gn] = b
@@ -1410,6 +1434,13 @@ def run_impl(case):
                             if gn not in dirty_before["glyphs"].get(ln, set()) and b1 != files_before[d0 + "/" + c0[gn]][0]:
                                 oracle.add("usable", "save/changed-clean-glyph-file", i, op, layer=ln, glyph=gn)
                                 break
+                if k == "save" and st == "ok":
+                    # ... and every image / data file the font lists
+                    for key, prefix, _, _ in SETS:
+                        for n in sorted(before[key + "_names"]):
+                            if prefix + n in files_before and prefix + n not in impl.files:
+                                oracle.add("usable", "save/lost-%s-file" % ("image" if key == "img" else "data"), i, op, name=n)
+                                break
                 if k in ("test", "reloadpart", "acceptdel") and st != "ok":
                     oracle.add("usable", "%s/%s" % (k, st[4:]), i, op, error=result)
                 if k == "reload" and st == "err:KeyError" and xc.default_layer(impl.files) in oracle.mem_deleted_layers:
@@ -1593,6 +1624,8 @@ class Sim(object):
             self.loaded.setdefault(ln, set()).add(gn)
             self.gspecs.pop((ln, gn), None)
             return [["gnew", ln, gn]]
+        if r < 0.48:
+            return self.rename(ln, self.glyph(names), rng.choice(fg.GLYPH_NAMES))
         if r < 0.56:
             gn = self.glyph(names)
             if gn in names:
@@ -1649,6 +1682,18 @@ class Sim(object):
             self.mem_dat.discard(n)
             return [["dat", n, None]]
         return [["datget", rng.choice(sorted(self.mem_dat) or fg.DATA_NAMES)]]
+
+    def rename(self, ln, old, new):
+        """glyph.name = new: the old name leaves the layer (its file is scheduled for deletion), the glyph lives under
+        the new name, which replaces whatever the layer held there"""
+        names = self.mem_layers.setdefault(ln, set())
+        if old in names and old != new:
+            names.discard(old)
+            names.add(new)
+            self.loaded.setdefault(ln, set()).discard(old)
+            self.loaded[ln].add(new)
+            self.gspecs.pop((ln, new), None)
+        return [["grename", ln, old, new]]
 
     def save(self):
         if self.no_save or self.frozen:
@@ -1760,6 +1805,12 @@ class Sim(object):
             self.disk_order.append(n)
             self.disk_layers[n] = set(gl)
             ops = [["xladd", n, gl, self.time()]]
+            if rng.random() < 0.45:
+                # ... and put somewhere else than at the end of layercontents.plist, before the font looks
+                o = list(self.disk_order)
+                rng.shuffle(o)
+                self.disk_order = o
+                ops.append(["xlorder", o, None])
             return ops + self.resync([n])
         if r < 0.97:
             c = [n for n in self.disk_order if n != self.disk_default and n != self.mem_default]
@@ -2020,6 +2071,144 @@ def scenario(sim, k):
                 ops += [["test"], [key, n, rng.randint(1, 6)]]      # taken back in memory afterwards
                 (sim.mem_img if k == 12 else sim.mem_dat).add(n)
             return ops
+    if k == 18 and both:
+        # a glyph (read before, or never read) renamed to a name the UFO does not know: the new name exists in memory
+        # only (finding F8.1) until the save; the old file is scheduled for deletion and another program may touch or
+        # rewrite it meanwhile
+        gn = rng.choice(both)
+        free = [n for n in fg.GLYPH_NAMES if n not in sim.disk_layers[ln] and n not in sim.mem_layers[ln]]
+        if free:
+            new = rng.choice(free)
+            ops = ([["gget", ln, gn]] if rng.random() < 0.5 else []) + sim.rename(ln, gn, new)
+            r = rng.random()
+            if r < 0.25:
+                ops.append(["xglyph", ln, gn, "touch", None, sim.time()])
+            elif r < 0.45:
+                ops.append(["xglyph", ln, gn, "write", g(gn), sim.time()])
+            if rng.random() < 0.6:
+                ops += [["test"]] + sim.save() + [["test"]]
+                if rng.random() < 0.5:
+                    ops.append(["xglyph", ln, new, "write", g(new), sim.time()])
+                    sim.disk_layers[ln].add(new)
+            return ops
+    if k == 19 and len(both) >= 2:
+        # a glyph renamed onto a name whose file is on disk (deleted in memory before, or simply replaced): the glyph
+        # object has never read that file, nothing is to be reported for it
+        a, b = rng.sample(both, 2)
+        ops = [["gget", ln, x] for x in (a, b) if rng.random() < 0.5]
+        if rng.random() < 0.6:
+            ops.append(["gdel", ln, b])
+            sim.mem_layers[ln].discard(b)
+            sim.loaded[ln].discard(b)
+        ops += sim.rename(ln, a, b)
+        if rng.random() < 0.3:
+            # ... and deleted under its new name: the file of that name, which the glyph never read, is scheduled
+            ops.append(["gdel", ln, b])
+            sim.mem_layers[ln].discard(b)
+            sim.loaded[ln].discard(b)
+        if rng.random() < 0.3:
+            ops.append(["xglyph", ln, rng.choice([a, b]), "touch", None, sim.time()])
+        if rng.random() < 0.5:
+            ops += [["test"]] + sim.save() + [["test"]]
+        return ops
+    if k == 20 and both:
+        # a glyph deleted in memory and created again under the same name (newGlyph directly, or del first)
+        gn = rng.choice(both)
+        ops = [["gget", ln, gn]] if rng.random() < 0.5 else []
+        if rng.random() < 0.7:
+            ops.append(["gdel", ln, gn])
+        ops.append(["gnew", ln, gn])
+        sim.loaded[ln].add(gn)
+        sim.gspecs.pop((ln, gn), None)
+        if rng.random() < 0.5:
+            ops.append(["gset", ln, gn, g(gn)])
+        if rng.random() < 0.35:
+            # ... and deleted again: the glyph object has no stamp, the file is scheduled as it is on disk
+            ops.append(["gdel", ln, gn])
+            sim.mem_layers[ln].discard(gn)
+            sim.loaded[ln].discard(gn)
+        r = rng.random()
+        if r < 0.3:
+            ops.append(["xglyph", ln, gn, "touch", None, sim.time()])
+        elif r < 0.45:
+            ops.append(["xglyph", ln, gn, "write", g(gn), sim.time()])
+        if rng.random() < 0.5:
+            ops += [["test"]] + sim.save() + [["test"]]
+        return ops
+    if k == 21 and both:
+        # rename there and back again, and a chain of renames, before anything is saved
+        gn = rng.choice(both)
+        free = [n for n in fg.GLYPH_NAMES if n not in sim.disk_layers[ln] and n not in sim.mem_layers[ln]]
+        if len(free) >= 2:
+            n1, n2 = rng.sample(free, 2)
+            ops = sim.rename(ln, gn, n1)
+            ops += sim.rename(ln, n1, gn) if rng.random() < 0.5 else sim.rename(ln, n1, n2)
+            if rng.random() < 0.5:
+                ops += [["test"]] + sim.save() + [["test"]]
+            return ops
+    if k == 22:
+        # the same object edited in memory several times between two synchronisations, then its file only touched
+        # (or really rewritten) on disk: what counts is what was last read from / written to the file, never an
+        # intermediate in-memory value
+        which = rng.choice(["img", "dat", "part", "glyph"])
+        n_edits = rng.randint(2, 3)
+        real = rng.random() < 0.25
+        if which in ("img", "dat"):
+            names = sorted((sim.mem_img & sim.disk_img) if which == "img" else (sim.mem_dat & sim.disk_dat))
+            if names:
+                n = rng.choice(names)
+                ops = [[which + "get", n]] if rng.random() < 0.5 else []
+                seeds = rng.sample(range(7, 12), n_edits)
+                ops += [[which, n, sd] for sd in seeds]
+                if rng.random() < 0.3:
+                    # ... one of them written by another program, byte for byte
+                    ops.append(["x" + which, n, "write", seeds[0], sim.time()])
+                elif real:
+                    ops.append(["x" + which, n, "write", rng.randint(12, 14), sim.time()])
+                else:
+                    ops.append(["x" + which, n, "touch", None, sim.time()])
+                return ops
+        if which == "part":
+            p = rng.choice(PARTS)
+            ops = [["touch", p]] + [["pset", p, gen_part_value(rng, p)] for _ in range(n_edits)]
+            if real:
+                ops.append(["xpart", p, "write", gen_part_value(rng, p), sim.time()])
+            else:
+                ops.append(["xpart", p, "touch", None, sim.time()])
+            return ops
+        if both:
+            gn = rng.choice(both)
+            sim.loaded[ln].add(gn)
+            sim.gspecs.pop((ln, gn), None)
+            ops = [["gset", ln, gn, g(gn)] for _ in range(n_edits)]
+            if real:
+                ops.append(["xglyph", ln, gn, "write", g(gn), sim.time()])
+            else:
+                ops.append(["xglyph", ln, gn, "touch", None, sim.time()])
+            return ops
+    if k == 23:
+        # loaded objects are rewritten by another program; the font is saved in place BEFORE it tests (the save rewrites
+        # only what it must: info, groups, lib always, kerning / features / glyphs / images / data when dirty), then tests:
+        # files the save left alone still hold the other program's bytes and must be reported
+        ops = []
+        for p in rng.sample(PARTS, rng.randint(1, 3)):
+            ops.append(["touch", p])
+            if rng.random() < 0.3:
+                ops.append(["pset", p, gen_part_value(rng, p)])
+        for p in rng.sample(PARTS, rng.randint(1, 3)):
+            if p != "lib" or rng.random() < 0.5:
+                ops.append(["xpart", p, "write", gen_part_value(rng, p), sim.time()])
+        if both and rng.random() < 0.6:
+            gn = rng.choice(both)
+            sim.loaded[ln].add(gn)
+            ops += [["gget", ln, gn]] + ([["gset", ln, gn, g(gn)]] if rng.random() < 0.3 else [])
+            ops.append(["xglyph", ln, gn, "write", g(gn), sim.time()])
+        for key, names in (("img", sim.mem_img & sim.disk_img), ("dat", sim.mem_dat & sim.disk_dat)):
+            if names and rng.random() < 0.4:
+                n = rng.choice(sorted(names))
+                ops += [[key + "get", n], ["x" + key, n, "write", rng.randint(7, 9), sim.time()]]
+        ops += sim.mem_op()
+        return ops + sim.save()
     if k == 11 and both:
         # a glyph removed on disk while it is loaded (and edited) in memory
         gn = rng.choice(both)
@@ -2067,12 +2256,14 @@ def gen_case(rng, tier):
                 ops += sim.save()
             # B. scripted pattern and/or a batch of external edits
             if rng.random() < 0.6:
-                ops += scenario(sim, rng.randrange(18))
+                ops += scenario(sim, rng.randrange(24))
             for _ in range(rng.randint(0, 3)):
                 ops += sim.x_op()
-            # C. in-memory ops while the external edits are unnoticed
+            # C. in-memory ops, or an in-place save, while the external edits are unnoticed
             if rng.random() < 0.3:
                 ops += sim.mem_op()
+            if rng.random() < 0.15:
+                ops += sim.save()
             # D. test, E. lazy reads right after it
             ops.append(["test"])
             if rng.random() < 0.6:
